@@ -1368,3 +1368,997 @@ Proof.
   - apply dv_dsum_seed_pos. lia.
   - right. apply seed_strict; [lia|rewrite <- Ex; exact Hx|unfold s; rewrite Ex; reflexivity].
 Qed.
+
+(* ================================================================ general strictness criterion, GAP8 (straight-through derivative) *)
+
+(* C12 -- strict sign of the cost gradient, in general.
+
+   s always denotes  qsgn (pval n w) : the sign of the ONE seeded element w.
+   dgood s a   : 0 <= dv a /\ 0 <= s * dd a          (value non-negative, derivative has the sign of the element)
+   dstrict s a : dgood s a /\ 0 < s * dd a
+
+   PART 1 : criterion for every network and every dual cost function preserving dgood; the std (params / ops) cost.
+   PART 2 : GAP8 latency with the straight-through derivative of FloorSTE. *)
+
+(* ================================================================ PART 1a : the general criterion *)
+Section StrictGen.
+  Variable St : Type.
+  Variable df : St -> dual -> dual -> dual -> dual.
+  Variable ok : St -> Prop.                (* admissible static data *)
+  Hypothesis df_good : forall s st a b c, ok st -> dgood s a -> dgood s b -> dgood s c -> dgood s (df st a b c).
+
+  Lemma ok_layers (n : net St) : wf_net n -> Forall (fun l => ok (l_s l)) (n_layers n) ->
+    Forall (fun l => ok (l_s l) /\ Caff Cnn (l_in l)) (n_layers n).
+  Proof.
+    unfold wf_net. intros H1 H2. induction H1 as [|l ls Hl _ IH]; [constructor|].
+    inversion H2; subst. constructor; [split; [assumption|exact Hl]|apply IH; assumption].
+  Qed.
+
+  Lemma dgood_layers_gen s (n : net St) w :
+    wf_net n -> Forall (fun l => ok (l_s l)) (n_layers n) -> seeds_good s n w ->
+    Forall (dgood s) (map (d_layer_cost df w (n_maskers n)) (combine (seq 0 (length (n_layers n))) (n_layers n))).
+  Proof.
+    intros Hw Hs H.
+    apply (G_layers (dgood s) Cnn Cnn_nonneg (dgood_const s) (dgood_add s) (dgood_mul s) St df ok).
+    - intros. apply df_good; assumption.
+    - intro j. apply dgood_mask, H.
+    - intros li l Hl. apply (dgood_k s n w li l H Hl).
+    - apply ok_layers; assumption.
+  Qed.
+
+  Lemma dgood_pit_cost_gen s (n : net St) w :
+    wf_net n -> Forall (fun l => ok (l_s l)) (n_layers n) -> seeds_good s n w -> dgood s (d_pit_cost df w n).
+  Proof. intros Hw Hs H. unfold d_pit_cost. apply dgood_dsum, dgood_layers_gen; assumption. Qed.
+
+  (* weak sign, for every cost function preserving dgood *)
+  Theorem pit_grad_sign_gen (n : net St) (w : pid) :
+    Forall (fun l => ok (l_s l)) (n_layers n) -> wf_net n ->
+    0 <= qsgn (pval n w) * dd (d_pit_cost df w n).
+  Proof. intros Hs Hw. apply (dgood_pit_cost_gen (qsgn (pval n w)) n w Hw Hs (seeds_good_sgn n w)). Qed.
+
+  Lemma pit_strict_layer_gen s (n : net St) w li l :
+    wf_net n -> Forall (fun l => ok (l_s l)) (n_layers n) -> seeds_good s n w ->
+    nth_error (n_layers n) li = Some l ->
+    dstrict s (d_layer_cost df w (n_maskers n) (li, l)) ->
+    dstrict s (d_pit_cost df w n).
+  Proof.
+    intros Hw Hs H Hl Hst. unfold d_pit_cost.
+    apply (dsum_strict_In s _ (d_layer_cost df w (n_maskers n) (li, l))); [apply dgood_layers_gen; assumption| |exact Hst].
+    apply in_map. apply (in_combine_seq (n_layers n) 0 li l Hl).
+  Qed.
+
+  (* (1a) ONE strict layer cost makes the derivative of the whole cost strictly signed *)
+  Theorem pit_grad_strict_gen (n : net St) (w : pid) (li : nat) (l : layer St) :
+    Forall (fun l => ok (l_s l)) (n_layers n) -> wf_net n ->
+    nth_error (n_layers n) li = Some l ->
+    dstrict (qsgn (pval n w)) (d_layer_cost df w (n_maskers n) (li, l)) ->
+    0 < qsgn (pval n w) * dd (d_pit_cost df w n).
+  Proof.
+    intros Hs Hw Hl Hst.
+    apply (pit_strict_layer_gen (qsgn (pval n w)) n w li l Hw Hs (seeds_good_sgn n w) Hl Hst).
+  Qed.
+End StrictGen.
+
+(* ================================================================ PART 1b : which arguments are strict *)
+(* the masker's own effective width *)
+Lemma mask_eff_strict {St} (n : net St) m i :
+  m_frozen (nth m (n_maskers n) dflt_masker) = false ->
+  (S i < length (m_alpha (nth m (n_maskers n) dflt_masker)))%nat ->
+  ~ pval n (PAlpha m i) == 0 ->
+  dstrict (qsgn (pval n (PAlpha m i))) (d_mask_eff (PAlpha m i) (n_maskers n) m).
+Proof.
+  intros Hfr Hi Hx. unfold d_mask_eff, d_out_eff. rewrite Hfr. cbn [alpha_on fst snd]. rewrite Nat.eqb_refl.
+  apply seed_strict; [exact Hi|exact Hx|reflexivity].
+Qed.
+
+(* the input features of a consumer: the affine form contains the masker with a positive multiplier *)
+Lemma in_eff_strict_from_mask {St} s (n : net St) w a mult m :
+  seeds_good s n w -> wf_affine a -> In (mult, m) (snd a) -> 0 < mult ->
+  dstrict s (d_mask_eff w (n_maskers n) m) ->
+  dstrict s (d_in_eff w (n_maskers n) a).
+Proof.
+  intros Hg [H0 Hc] Hin Hmult Hs. unfold d_in_eff.
+  apply dstrict_add_r; [apply dgood_const; exact H0|].
+  apply (dsum_strict_In s _ (dmul (dconst mult) (d_mask_eff w (n_maskers n) m))).
+  - apply Forall_forall. intros x Hx. apply in_map_iff in Hx as [p [<- Hp]].
+    rewrite Forall_forall in Hc. apply dgood_mul; [apply dgood_const; apply (Hc p Hp)|apply dgood_mask, Hg].
+  - change (dmul (dconst mult) (d_mask_eff w (n_maskers n) m))
+      with ((fun p : Q * nat => dmul (dconst (fst p)) (d_mask_eff w (n_maskers n) (snd p))) (mult, m)).
+    apply in_map. exact Hin.
+  - apply dstrict_mul_r; [apply dgood_const; lra|exact Hmult|exact Hs].
+Qed.
+
+Lemma in_eff_strict {St} (n : net St) m i a :
+  m_frozen (nth m (n_maskers n) dflt_masker) = false ->
+  (S i < length (m_alpha (nth m (n_maskers n) dflt_masker)))%nat ->
+  ~ pval n (PAlpha m i) == 0 ->
+  wf_affine a -> (exists mult, In (mult, m) (snd a) /\ 0 < mult) ->
+  dstrict (qsgn (pval n (PAlpha m i))) (d_in_eff (PAlpha m i) (n_maskers n) a).
+Proof.
+  intros Hfr Hi Hx Ha [mult [Hin Hmult]].
+  apply (in_eff_strict_from_mask _ n (PAlpha m i) a mult m (seeds_good_sgn n (PAlpha m i)) Ha Hin Hmult).
+  apply mask_eff_strict; assumption.
+Qed.
+
+(* the effective kernel size, beta / gamma elements (hypotheses of pit_grad_pos_beta / pit_grad_pos_gamma) *)
+Lemma k_eff_strict_beta {St} (n : net St) li i l t :
+  nth_error (n_layers n) li = Some l -> l_time l = Some t ->
+  (1 <= t_K t)%nat -> length (t_beta t) = t_K t -> length (t_gamma t) = gamma_len (t_K t) ->
+  (S i < t_K t)%nat -> ~ pval n (PBeta li i) == 0 ->
+  dstrict (qsgn (pval n (PBeta li i))) (d_k_eff (PBeta li i) li (Some t)).
+Proof.
+  intros Hl Ht HK Hb Hgl Hi Hx.
+  assert (Ex : pval n (PBeta li i) = nth i (t_beta t) 0) by (cbn [pval]; rewrite Hl, Ht; reflexivity).
+  cbn [d_k_eff beta_on gamma_on fst snd]. rewrite Nat.eqb_refl.
+  pose proof (gamma_len_pos (t_K t)) as Hgp.
+  apply k_eff_cont_strict.
+  - exact HK.
+  - rewrite seed_length. exact Hb.
+  - rewrite seed_length, Hgl. exact Hgp.
+  - apply seed_good. intros _ _. rewrite Ex. reflexivity.
+  - apply seed_off_good.
+  - apply dv_dsum_seed_pos. lia.
+  - apply dv_dsum_seed_pos. lia.
+  - left. apply seed_strict; [lia|rewrite <- Ex; exact Hx|rewrite Ex; reflexivity].
+Qed.
+
+Lemma k_eff_strict_gamma {St} (n : net St) li i l t :
+  nth_error (n_layers n) li = Some l -> l_time l = Some t ->
+  (1 <= t_K t)%nat -> length (t_beta t) = t_K t -> length (t_gamma t) = gamma_len (t_K t) ->
+  (S i < gamma_len (t_K t))%nat -> ~ pval n (PGamma li i) == 0 ->
+  dstrict (qsgn (pval n (PGamma li i))) (d_k_eff (PGamma li i) li (Some t)).
+Proof.
+  intros Hl Ht HK Hb Hgl Hi Hx.
+  assert (Ex : pval n (PGamma li i) = nth i (t_gamma t) 0) by (cbn [pval]; rewrite Hl, Ht; reflexivity).
+  cbn [d_k_eff beta_on gamma_on fst snd]. rewrite Nat.eqb_refl.
+  pose proof (gamma_len_pos (t_K t)) as Hgp.
+  apply k_eff_cont_strict.
+  - exact HK.
+  - rewrite seed_length. exact Hb.
+  - rewrite seed_length, Hgl. exact Hgp.
+  - apply seed_off_good.
+  - apply seed_good. intros _ _. rewrite Ex. reflexivity.
+  - apply dv_dsum_seed_pos. lia.
+  - apply dv_dsum_seed_pos. lia.
+  - right. apply seed_strict; [lia|rewrite <- Ex; exact Hx|rewrite Ex; reflexivity].
+Qed.
+
+(* ================================================================ PART 1c : positivity of the other arguments *)
+Lemma out_eff_pos m : m_frozen m = false -> m_alpha m <> [] -> 1 <= out_eff m.
+Proof.
+  intros Hf Hne. unfold out_eff, theta_of. rewrite Hf. unfold theta_alpha. apply qsum_keep_alive_pos.
+  destruct (m_alpha m); [congruence|cbn [length]; lia].
+Qed.
+
+Lemma out_eff_frozen m : m_frozen m = true -> out_eff m == n_of (m_alpha m).
+Proof. intro Hf. unfold out_eff, theta_of, n_of. rewrite Hf. unfold theta_alpha_frozen. apply qsum_const1. Qed.
+
+Lemma n_of_pos l : l <> [] -> 1 <= n_of l.
+Proof.
+  intro H. unfold n_of. destruct l as [|x l]; [congruence|]. cbn [length]. rewrite inject_nat_S.
+  assert (0 <= inject_Z (Z.of_nat (length l))); [|lra].
+  change 0 with (inject_Z 0). rewrite <- Zle_Qle. lia.
+Qed.
+
+Lemma out_eff_frozen_pos m : m_frozen m = true -> m_alpha m <> [] -> 0 < out_eff m.
+Proof. intros Hf Hne. rewrite (out_eff_frozen m Hf). pose proof (n_of_pos _ Hne). lra. Qed.
+
+Lemma out_eff_pos_any m : m_alpha m <> [] -> 1 <= out_eff m.
+Proof.
+  intro Hne. destruct (m_frozen m) eqn:Hf; [|apply out_eff_pos; assumption].
+  rewrite (out_eff_frozen m Hf). apply n_of_pos, Hne.
+Qed.
+
+Lemma mask_eff_pos ms j : m_alpha (nth j ms dflt_masker) <> [] -> 1 <= mask_eff ms j.
+Proof. apply out_eff_pos_any. Qed.
+
+Lemma mask_eff_nonneg ms j : 0 <= mask_eff ms j.
+Proof. apply (mask_eff_mono ms ms j (masker_le_all ms)). Qed.
+
+Lemma theta_gamma_at_0 ka : theta_gamma_at ka 0 = qsum ka.
+Proof.
+  unfold theta_gamma_at. f_equal. apply (nth_ext _ _ 0 0).
+  - rewrite map_length, seq_length. reflexivity.
+  - intros i Hi. rewrite map_length, seq_length in Hi. rewrite nth_map_seq by exact Hi.
+    rewrite Nat.mod_0_l by (apply Nat.pow_nonzero; lia). reflexivity.
+Qed.
+
+Lemma theta_gamma_at_nonneg ka d : Forall (fun x => 0 <= x) ka -> 0 <= theta_gamma_at ka d.
+Proof. intro H. apply (theta_gamma_at_mono ka ka d (le0_refl ka H)). Qed.
+
+Lemma qsum_firstn_nonneg n l : Forall (fun x => 0 <= x) l -> 0 <= qsum (firstn n l).
+Proof. intro H. apply qsum_nonneg, Forall_firstn', H. Qed.
+
+Lemma pos_inv_nonneg p : 0 <= 1 # p.
+Proof. unfold Qle; cbn; lia. Qed.
+Lemma pos_inv_pos p : 0 < 1 # p.
+Proof. reflexivity. Qed.
+
+Lemma k_eff_cont_pos K beta gamma : (1 <= K)%nat -> length beta = K -> length gamma = gamma_len K ->
+  0 < k_eff_cont true K beta gamma.
+Proof.
+  intros HK Hb Hg. unfold k_eff_cont, theta_gamma, theta_beta, gamma_norm, beta_norm. cbv zeta.
+  rewrite Hb. rewrite !qmul3_map_seq.
+  match goal with |- 0 < qsum (map ?F (seq 0 K)) => set (F0 := F) end.
+  assert (Hnn : Forall (fun x => 0 <= x) (map F0 (seq 0 K))).
+  { apply Forall_forall. intros x Hx. apply in_map_iff in Hx as [j [<- _]]. unfold F0.
+    pose proof (theta_gamma_at_nonneg (keep_alive gamma) (dist true K j) (keep_alive_nonneg gamma)) as H1.
+    pose proof (qsum_firstn_nonneg (S j) (keep_alive beta) (keep_alive_nonneg beta)) as H2.
+    apply Qmult_le_0_compat; apply Qmult_le_0_compat; try assumption; apply pos_inv_nonneg. }
+  pose proof (nth_le_qsum _ (K - 1) Hnn) as Hle. rewrite nth_map_seq in Hle by lia.
+  assert (Hp : 0 < F0 (K - 1)%nat); [|lra].
+  unfold F0, dist. replace (K - 1 - (K - 1))%nat with 0%nat by lia. rewrite theta_gamma_at_0.
+  replace (S (K - 1)) with K by lia. rewrite firstn_all2 by (rewrite keep_alive_length; lia).
+  pose proof (qsum_keep_alive_pos gamma ltac:(rewrite Hg; apply gamma_len_pos)) as Pg.
+  pose proof (qsum_keep_alive_pos beta ltac:(lia)) as Pb.
+  apply Qmult_lt_0_compat; apply Qmult_lt_0_compat; try apply pos_inv_pos; lra.
+Qed.
+
+(* shape of the time masker a PIT Conv1d creates *)
+Definition shaped_tmask (t : option tmask) : Prop :=
+  match t with None => True
+  | Some t => (1 <= t_K t)%nat /\ length (t_beta t) = t_K t /\ length (t_gamma t) = gamma_len (t_K t) end.
+
+Lemma k_eff_pos t : shaped_tmask t -> 0 < k_eff t.
+Proof.
+  destruct t as [t|]; cbn [shaped_tmask k_eff]; [|intros _; lra].
+  intros [HK [Hb Hg]]. apply k_eff_cont_pos; assumption.
+Qed.
+
+Lemma qsum_pos_In l x : Forall (fun y => 0 <= y) l -> In x l -> 0 < x -> 0 < qsum l.
+Proof.
+  intros H Hin Hx. destruct (In_nth _ _ 0 Hin) as [j [_ E]]. pose proof (nth_le_qsum l j H) as Hle.
+  rewrite E in Hle. lra.
+Qed.
+
+Lemma in_eff_pos ms a : wf_affine a ->
+  (0 < fst a \/ exists mult j, In (mult, j) (snd a) /\ 0 < mult /\ 0 < mask_eff ms j) -> 0 < in_eff ms a.
+Proof.
+  intros [H0 Hc] H. unfold in_eff.
+  assert (Hnn : Forall (fun y => 0 <= y) (map (fun p => fst p * mask_eff ms (snd p)) (snd a))).
+  { apply Forall_forall. intros x Hx. apply in_map_iff in Hx as [p [<- Hp]]. rewrite Forall_forall in Hc.
+    apply Qmult_le_0_compat; [apply (Hc p Hp)|apply mask_eff_nonneg]. }
+  destruct H as [H|[mult [j [Hin [Hm Hj]]]]].
+  - pose proof (qsum_nonneg _ Hnn). lra.
+  - assert (0 < qsum (map (fun p => fst p * mask_eff ms (snd p)) (snd a))); [|lra].
+    apply (qsum_pos_In _ (mult * mask_eff ms j) Hnn).
+    + change (mult * mask_eff ms j) with ((fun p : Q * nat => fst p * mask_eff ms (snd p)) (mult, j)).
+      apply in_map. exact Hin.
+    + apply Qmult_lt_0_compat; assumption.
+Qed.
+
+(* ================================================================ PART 1d : the std cost, strictness per argument *)
+Lemma d_std_f_good s st a b c : wf_std st -> dgood s a -> dgood s b -> dgood s c -> dgood s (d_std_f st a b c).
+Proof. intros. apply (G_std_f (dgood s) Cnn (dgood_const s) (dgood_add s) (dgood_mul s)); assumption. Qed.
+
+(* ---- non-depthwise:  osz * (cout * (cin * (k * kc) + b)) *)
+Lemma std_f_strict_nd_cout s st cin cout k : wf_std st -> s_dw st = false ->
+  dgood s cin -> dstrict s cout -> dgood s k ->
+  0 < s_osz st /\ 0 < dv cin * (dv k * s_kc st) + s_b st ->
+  dstrict s (d_std_f st cin cout k).
+Proof. intros Hst Hdw Hcin Hcout Hk [Hosz Hpos]. apply std_f_strict_cout; assumption. Qed.
+
+Lemma std_f_strict_nd_cin s st cin cout k : wf_std st -> s_dw st = false ->
+  dstrict s cin -> dgood s cout -> dgood s k ->
+  0 < s_osz st /\ 0 < dv cout /\ 0 < dv k * s_kc st ->
+  dstrict s (d_std_f st cin cout k).
+Proof.
+  intros [Ho [Hb Hk]] Hdw Hcin Hcout Hkk [Hosz [Hcoutp Hkp]]. unfold d_std_f. rewrite Hdw.
+  apply dstrict_mul_r; [apply dgood_const; exact Ho|exact Hosz|].
+  apply dstrict_mul_r; [exact Hcout|exact Hcoutp|].
+  apply dstrict_add; [|apply dgood_const; exact Hb].
+  apply dstrict_mul_l; [exact Hcin| |exact Hkp].
+  apply dgood_mul; [exact Hkk|apply dgood_const; exact Hk].
+Qed.
+
+Lemma std_f_strict_nd_k s st cin cout k : wf_std st -> s_dw st = false ->
+  dgood s cin -> dgood s cout -> dstrict s k ->
+  0 < s_osz st /\ 0 < s_kc st /\ 0 < dv cout /\ 0 < dv cin ->
+  dstrict s (d_std_f st cin cout k).
+Proof. intros Hst _ Hcin Hcout Hk [Hosz [Hkc [Hco Hci]]]. apply std_f_strict_k; assumption. Qed.
+
+(* ---- depthwise:  osz * (cin * (k * kc + b))   (no dependence on cout) *)
+Lemma std_f_strict_dw_cin s st cin cout k : wf_std st -> s_dw st = true ->
+  dstrict s cin -> dgood s k ->
+  0 < s_osz st /\ 0 < dv k * s_kc st + s_b st ->
+  dstrict s (d_std_f st cin cout k).
+Proof.
+  intros [Ho [Hb Hk]] Hdw Hcin Hkk [Hosz Hpos]. unfold d_std_f. rewrite Hdw.
+  apply dstrict_mul_r; [apply dgood_const; exact Ho|exact Hosz|].
+  apply dstrict_mul_l; [exact Hcin| |exact Hpos].
+  apply dgood_add; [|apply dgood_const; exact Hb]. apply dgood_mul; [exact Hkk|apply dgood_const; exact Hk].
+Qed.
+
+Lemma std_f_strict_dw_k s st cin cout k : wf_std st -> s_dw st = true ->
+  dgood s cin -> dstrict s k ->
+  0 < s_osz st /\ 0 < s_kc st /\ 0 < dv cin ->
+  dstrict s (d_std_f st cin cout k).
+Proof.
+  intros [Ho [Hb Hk]] Hdw Hcin Hkk [Hosz [Hkc Hci]]. unfold d_std_f. rewrite Hdw.
+  apply dstrict_mul_r; [apply dgood_const; exact Ho|exact Hosz|].
+  apply dstrict_mul_r; [exact Hcin|exact Hci|]. apply dstrict_add; [|apply dgood_const; exact Hb].
+  apply dstrict_mul_l; [exact Hkk|apply dgood_const; exact Hk|exact Hkc].
+Qed.
+
+Lemma d_std_f_dw_indep_cout st cin cout cout' k : s_dw st = true -> d_std_f st cin cout k = d_std_f st cin cout' k.
+Proof. intro H. unfold d_std_f. rewrite H. reflexivity. Qed.
+
+(* ================================================================ PART 1e : the std cost over any network *)
+Definition alpha_feeds (ms : list masker) (m : nat) (l : layer std) : Prop :=
+  0 < s_osz (l_s l) /\
+  ( (l_mask l = m /\ s_dw (l_s l) = false /\ 0 < in_eff ms (l_in l) * (k_eff (l_time l) * s_kc (l_s l)) + s_b (l_s l))
+    \/ ((exists mult, In (mult, m) (snd (l_in l)) /\ 0 < mult) /\
+        (if s_dw (l_s l) then 0 < k_eff (l_time l) * s_kc (l_s l) + s_b (l_s l)
+         else 0 < mask_eff ms (l_mask l) /\ 0 < k_eff (l_time l) * s_kc (l_s l))) ).
+
+Theorem pit_grad_pos (n : net std) m i l :
+  wf_net n -> Forall (fun l => wf_std (l_s l)) (n_layers n) ->
+  m_frozen (nth m (n_maskers n) dflt_masker) = false ->
+  (S i < length (m_alpha (nth m (n_maskers n) dflt_masker)))%nat ->
+  ~ pval n (PAlpha m i) == 0 ->
+  In l (n_layers n) -> alpha_feeds (n_maskers n) m l ->
+  0 < qsgn (pval n (PAlpha m i)) * dd (d_pit_cost d_std_f (PAlpha m i) n).
+Proof.
+  intros Hw Hs Hfr Hi Hx Hin [Hosz [[Hm [Hdw Hpos]]|[Hfed Hrest]]].
+  - apply (pit_grad_pos_partial n m i l); assumption.
+  - destruct (In_nth_error _ _ Hin) as [li Hl].
+    apply (pit_grad_strict_gen std d_std_f wf_std d_std_f_good n (PAlpha m i) li l Hs Hw Hl).
+    pose proof (seeds_good_sgn n (PAlpha m i)) as Hg.
+    assert (Hst : wf_std (l_s l)) by (rewrite Forall_forall in Hs; apply Hs; exact Hin).
+    assert (Hcin : dstrict (qsgn (pval n (PAlpha m i))) (d_in_eff (PAlpha m i) (n_maskers n) (l_in l))).
+    { apply in_eff_strict; try assumption. apply (wf_net_layer n li l Hw Hl). }
+    unfold d_layer_cost. cbn [fst snd].
+    destruct (s_dw (l_s l)) eqn:Hdw.
+    + apply std_f_strict_dw_cin; [exact Hst|exact Hdw|exact Hcin|apply (dgood_k _ n _ li l Hg Hl)|].
+      rewrite dv_d_k_eff. split; assumption.
+    + destruct Hrest as [Hmp Hkp].
+      apply std_f_strict_nd_cin; [exact Hst|exact Hdw|exact Hcin|apply dgood_mask, Hg|apply (dgood_k _ n _ li l Hg Hl)|].
+      rewrite dv_d_mask_eff, dv_d_k_eff. repeat split; assumption.
+Qed.
+
+(* beta / gamma of a depthwise (or any) layer through the general criterion: the depthwise case does not need
+   0 < mask_eff of the layer's own masker *)
+Theorem pit_grad_pos_time_dw (n : net std) (w : pid) (li : nat) (l : layer std) :
+  wf_net n -> Forall (fun l => wf_std (l_s l)) (n_layers n) ->
+  nth_error (n_layers n) li = Some l -> s_dw (l_s l) = true ->
+  dstrict (qsgn (pval n w)) (d_k_eff w li (l_time l)) ->
+  0 < s_osz (l_s l) -> 0 < s_kc (l_s l) -> 0 < in_eff (n_maskers n) (l_in l) ->
+  0 < qsgn (pval n w) * dd (d_pit_cost d_std_f w n).
+Proof.
+  intros Hw Hs Hl Hdw Hk Hosz Hkc Hin.
+  apply (pit_grad_strict_gen std d_std_f wf_std d_std_f_good n w li l Hs Hw Hl).
+  pose proof (seeds_good_sgn n w) as Hg.
+  unfold d_layer_cost. cbn [fst snd].
+  apply std_f_strict_dw_k; [|exact Hdw| |exact Hk|].
+  - rewrite Forall_forall in Hs. apply Hs. apply (nth_error_In _ _ Hl).
+  - apply dgood_in; [exact Hg|apply (wf_net_layer n li l Hw Hl)].
+  - rewrite dv_d_in_eff. repeat split; assumption.
+Qed.
+
+(* ================================================================ PART 2 : GAP8, straight-through derivative *)
+Lemma fl_nonneg x n : (1 <= n)%Z -> 0 <= x -> 0 <= fl x n.
+Proof. intros Hn Hx. apply (fl_mono0 x x n Hn). split; [exact Hx|apply Qle_refl]. Qed.
+
+Lemma fl_pos x n : (1 <= n)%Z -> 1 <= x -> 1 <= fl x n.
+Proof.
+  intros Hn Hx. unfold fl.
+  assert (Hq : 1 <= inject_Z n) by (change 1 with (inject_Z 1); rewrite <- Zle_Qle; exact Hn).
+  assert (H1 : 1 <= (x + inject_Z n - 1) / inject_Z n).
+  { apply Qle_shift_div_l; lra. }
+  pose proof (Qfloor_resp_le _ _ H1) as H2. change (Qfloor 1) with 1%Z in H2.
+  change 1 with (inject_Z 1). rewrite <- Zle_Qle. exact H2.
+Qed.
+
+(* (2a) FloorSTE: value = floor (non-negative on non-negative arguments), derivative passes through *)
+Lemma dgood_fl s a n : (1 <= n)%Z -> dgood s a -> dgood s (dfl a n).
+Proof. intros Hn [H1 H2]. split; cbn [dv dd dfl]; [apply fl_nonneg; assumption|exact H2]. Qed.
+
+Lemma dstrict_fl s a n : (1 <= n)%Z -> dstrict s a -> dstrict s (dfl a n).
+Proof. intros Hn [Hg Hs]. split; [apply dgood_fl; assumption|exact Hs]. Qed.
+
+Lemma g8_consts st : wf_g8 st ->
+  0 <= fl (g_ox st) 2 * fl (g_oy st) 8 /\ 0 <= g_kx st * g_ky st /\ 0 <= g_ox st * g_oy st * g_kx st * g_ky st.
+Proof.
+  intros [Hkx [Hky [Hox Hoy]]].
+  pose proof (fl_nonneg (g_ox st) 2 ltac:(lia) Hox). pose proof (fl_nonneg (g_oy st) 8 ltac:(lia) Hoy).
+  repeat split; repeat apply Qmult_le_0_compat; assumption.
+Qed.
+
+Lemma d_gap8_f_good s st a b c : wf_g8 st -> dgood s a -> dgood s b -> dgood s c -> dgood s (d_gap8_f st a b c).
+Proof.
+  intros Hst Ha Hb Hc. destruct (g8_consts st Hst) as [C0 [C1 C2]]. unfold d_gap8_f.
+  destruct (g_kind st).
+  - apply dgood_mul; [apply dgood_const; exact C0|]. apply dgood_add.
+    + apply dgood_mul; [apply dgood_const; exact C1|]. apply dgood_mul; [exact Ha|apply dgood_const; lra].
+    + apply dgood_mul; [apply dgood_fl; [lia|exact Hb]|].
+      apply dgood_add; [|apply dgood_const; lra]. apply dgood_add; [apply dgood_const; lra|].
+      apply dgood_mul; [|apply dgood_const; lra]. apply dgood_fl; [lia|].
+      apply dgood_mul; [apply dgood_const; exact C1|exact Ha].
+  - apply dgood_mul; [|apply dgood_const; exact C2].
+    apply dgood_mul; [apply dgood_const; lra|apply dgood_fl; [lia|exact Hb]].
+  - apply dgood_mul; apply dgood_fl; try lia; assumption.
+Qed.
+
+Theorem pit_grad_sign_gap8 (n : net g8) (w : pid) :
+  wf_net n -> Forall (fun l => wf_g8 (l_s l)) (n_layers n) ->
+  0 <= qsgn (pval n w) * dd (d_pit_cost d_gap8_f w n).
+Proof. intros Hw Hs. apply (pit_grad_sign_gen g8 d_gap8_f wf_g8 d_gap8_f_good n w Hs Hw). Qed.
+
+(* zero derivative for gap8: keep-alive (last) element, out-of-range index, frozen masker *)
+Theorem pit_grad_keepalive_zero_gap8 (n : net g8) m i :
+  S i = length (m_alpha (nth m (n_maskers n) dflt_masker)) -> dd (d_pit_cost d_gap8_f (PAlpha m i) n) == 0.
+Proof. intro H. apply (pit_grad_zero_gen g8 d_gap8_f d_gap8_f_zero). cbn [pidx pvec]. lia. Qed.
+
+Theorem pit_grad_out_of_range_zero_gap8 (n : net g8) (w : pid) :
+  (length (pvec n w) <= pidx w)%nat -> dd (d_pit_cost d_gap8_f w n) == 0.
+Proof. intro H. apply (pit_grad_zero_gen g8 d_gap8_f d_gap8_f_zero). lia. Qed.
+
+Theorem pit_grad_frozen_zero_gap8 (n : net g8) m i :
+  m_frozen (nth m (n_maskers n) dflt_masker) = true -> dd (d_pit_cost d_gap8_f (PAlpha m i) n) == 0.
+Proof. apply (pit_grad_frozen_zero_gen g8 d_gap8_f d_gap8_f_zero). Qed.
+
+(* (2b) strictness per argument *)
+Lemma gap8_f_strict_conv_cout s st cin cout k : wf_g8 st -> g_kind st = G8Conv ->
+  dgood s cin -> dstrict s cout ->
+  0 < fl (g_ox st) 2 * fl (g_oy st) 8 ->
+  dstrict s (d_gap8_f st cin cout k).
+Proof.
+  intros Hst Hk Ha Hb Hp. destruct (g8_consts st Hst) as [C0 [C1 C2]]. unfold d_gap8_f. rewrite Hk.
+  assert (Gin : dgood s (dfl (dmul (dconst (g_kx st * g_ky st)) cin) 4)).
+  { apply dgood_fl; [lia|]. apply dgood_mul; [apply dgood_const; exact C1|exact Ha]. }
+  apply dstrict_mul_r; [apply dgood_const; exact C0|exact Hp|].
+  apply dstrict_add_r.
+  - apply dgood_mul; [apply dgood_const; exact C1|]. apply dgood_mul; [exact Ha|apply dgood_const; lra].
+  - apply dstrict_mul_l; [apply dstrict_fl; [lia|exact Hb]| |].
+    + apply dgood_add; [|apply dgood_const; lra]. apply dgood_add; [apply dgood_const; lra|].
+      apply dgood_mul; [exact Gin|apply dgood_const; lra].
+    + destruct Gin as [Gv _]. cbn [dv dadd dmul dconst dfl] in *.
+      set (F := fl (g_kx st * g_ky st * dv cin) 4) in *. lra.
+Qed.
+
+Lemma gap8_f_strict_conv_cin s st cin cout k : wf_g8 st -> g_kind st = G8Conv ->
+  dstrict s cin -> dgood s cout ->
+  0 < fl (g_ox st) 2 * fl (g_oy st) 8 /\ 0 < g_kx st * g_ky st ->
+  dstrict s (d_gap8_f st cin cout k).
+Proof.
+  intros Hst Hk Ha Hb [Hp Hkk]. destruct (g8_consts st Hst) as [C0 [C1 C2]]. unfold d_gap8_f. rewrite Hk.
+  pose proof Ha as [Ga _].
+  apply dstrict_mul_r; [apply dgood_const; exact C0|exact Hp|].
+  apply dstrict_add.
+  - apply dstrict_mul_r; [apply dgood_const; exact C1|exact Hkk|].
+    apply dstrict_mul_l; [exact Ha|apply dgood_const; lra|cbn [dv dconst]; lra].
+  - apply dgood_mul; [apply dgood_fl; [lia|exact Hb]|].
+    apply dgood_add; [|apply dgood_const; lra]. apply dgood_add; [apply dgood_const; lra|].
+    apply dgood_mul; [|apply dgood_const; lra]. apply dgood_fl; [lia|].
+    apply dgood_mul; [apply dgood_const; exact C1|exact Ga].
+Qed.
+
+Lemma gap8_f_strict_dw_cout s st cin cout k : wf_g8 st -> g_kind st = G8Dw ->
+  dstrict s cout ->
+  0 < g_ox st * g_oy st * g_kx st * g_ky st ->
+  dstrict s (d_gap8_f st cin cout k).
+Proof.
+  intros Hst Hk Hb Hp. destruct (g8_consts st Hst) as [C0 [C1 C2]]. unfold d_gap8_f. rewrite Hk.
+  apply dstrict_mul_l; [|apply dgood_const; exact C2|exact Hp].
+  apply dstrict_mul_r; [apply dgood_const; lra|cbn [dv dconst]; lra|apply dstrict_fl; [lia|exact Hb]].
+Qed.
+
+Lemma d_gap8_f_dw_indep_cin st cin cin' cout k : g_kind st = G8Dw -> d_gap8_f st cin cout k = d_gap8_f st cin' cout k.
+Proof. intro H. unfold d_gap8_f. rewrite H. reflexivity. Qed.
+
+Lemma gap8_f_strict_lin_cout s st cin cout k : g_kind st = G8Lin ->
+  dgood s cin -> dstrict s cout ->
+  0 < fl (dv cin) 2 ->
+  dstrict s (d_gap8_f st cin cout k).
+Proof.
+  intros Hk Ha Hb Hp. unfold d_gap8_f. rewrite Hk.
+  apply dstrict_mul_r; [apply dgood_fl; [lia|exact Ha]|exact Hp|apply dstrict_fl; [lia|exact Hb]].
+Qed.
+
+Lemma gap8_f_strict_lin_cin s st cin cout k : g_kind st = G8Lin ->
+  dstrict s cin -> dgood s cout ->
+  0 < fl (dv cout) 4 ->
+  dstrict s (d_gap8_f st cin cout k).
+Proof.
+  intros Hk Ha Hb Hp. unfold d_gap8_f. rewrite Hk.
+  apply dstrict_mul_l; [apply dstrict_fl; [lia|exact Ha]|apply dgood_fl; [lia|exact Hb]|exact Hp].
+Qed.
+
+(* (2c) *)
+Definition alpha_feeds_g8 (ms : list masker) (m : nat) (l : layer g8) : Prop :=
+  match g_kind (l_s l) with
+  | G8Conv => 0 < fl (g_ox (l_s l)) 2 * fl (g_oy (l_s l)) 8 /\
+              ( l_mask l = m \/
+                ((exists mult, In (mult, m) (snd (l_in l)) /\ 0 < mult) /\ 0 < g_kx (l_s l) * g_ky (l_s l)) )
+  | G8Dw => l_mask l = m /\ 0 < g_ox (l_s l) * g_oy (l_s l) * g_kx (l_s l) * g_ky (l_s l)
+  | G8Lin => (l_mask l = m /\ 0 < fl (in_eff ms (l_in l)) 2) \/
+             ((exists mult, In (mult, m) (snd (l_in l)) /\ 0 < mult) /\ 0 < fl (mask_eff ms (l_mask l)) 4)
+  end.
+
+Theorem pit_grad_pos_gap8 (n : net g8) m i l :
+  wf_net n -> Forall (fun l => wf_g8 (l_s l)) (n_layers n) ->
+  m_frozen (nth m (n_maskers n) dflt_masker) = false ->
+  (S i < length (m_alpha (nth m (n_maskers n) dflt_masker)))%nat ->
+  ~ pval n (PAlpha m i) == 0 ->
+  In l (n_layers n) -> alpha_feeds_g8 (n_maskers n) m l ->
+  0 < qsgn (pval n (PAlpha m i)) * dd (d_pit_cost d_gap8_f (PAlpha m i) n).
+Proof.
+  intros Hw Hs Hfr Hi Hx Hin Hf.
+  destruct (In_nth_error _ _ Hin) as [li Hl].
+  apply (pit_grad_strict_gen g8 d_gap8_f wf_g8 d_gap8_f_good n (PAlpha m i) li l Hs Hw Hl).
+  pose proof (seeds_good_sgn n (PAlpha m i)) as Hg.
+  assert (Hst : wf_g8 (l_s l)) by (rewrite Forall_forall in Hs; apply Hs; exact Hin).
+  pose proof (wf_net_layer n li l Hw Hl) as Hwa.
+  assert (Gin : dgood (qsgn (pval n (PAlpha m i))) (d_in_eff (PAlpha m i) (n_maskers n) (l_in l))) by (apply dgood_in; assumption).
+  assert (Gout : dgood (qsgn (pval n (PAlpha m i))) (d_mask_eff (PAlpha m i) (n_maskers n) (l_mask l))) by (apply dgood_mask, Hg).
+  assert (Sout : l_mask l = m -> dstrict (qsgn (pval n (PAlpha m i))) (d_mask_eff (PAlpha m i) (n_maskers n) (l_mask l))).
+  { intros ->. apply mask_eff_strict; assumption. }
+  assert (Sin : (exists mult, In (mult, m) (snd (l_in l)) /\ 0 < mult) ->
+                dstrict (qsgn (pval n (PAlpha m i))) (d_in_eff (PAlpha m i) (n_maskers n) (l_in l))).
+  { intro Hfed. apply in_eff_strict; assumption. }
+  unfold d_layer_cost. cbn [fst snd]. unfold alpha_feeds_g8 in Hf.
+  destruct (g_kind (l_s l)) eqn:Hk.
+  - destruct Hf as [Hp [Hm|[Hfed Hkk]]].
+    + apply gap8_f_strict_conv_cout; auto.
+    + apply gap8_f_strict_conv_cin; auto.
+  - destruct Hf as [Hm Hp]. apply gap8_f_strict_dw_cout; auto.
+  - destruct Hf as [[Hm Hp]|[Hfed Hp]].
+    + apply gap8_f_strict_lin_cout; auto. rewrite dv_d_in_eff. exact Hp.
+    + apply gap8_f_strict_lin_cin; auto. rewrite dv_d_mask_eff. exact Hp.
+Qed.
+
+(* ================================================================ softmax coefficients: finite differences and derivative *)
+
+(* ================================================================ helpers: upd, sign of a quotient *)
+Lemma upd_length l i x : length (upd l i x) = length l.
+Proof. revert i. induction l as [|y t IH]; intros [|i]; cbn [upd length]; try reflexivity. rewrite IH. reflexivity. Qed.
+
+Lemma qsum_upd w j x : (j < length w)%nat -> qsum (upd w j x) == qsum w + (x - nth j w 0).
+Proof.
+  revert j. induction w as [|y t IH]; intros j Hj; [cbn in Hj; lia|].
+  destruct j as [|j]; cbn [upd nth]; rewrite !qsum_cons.
+  - ring.
+  - rewrite IH by (cbn in Hj; lia). ring.
+Qed.
+
+Lemma mix_cost_upd w c j x : (j < length w)%nat -> length w = length c ->
+  mix_cost (upd w j x) c == mix_cost w c + (x - nth j w 0) * nth j c 0.
+Proof.
+  revert c j. induction w as [|y t IH]; intros c j Hj Hl; [cbn in Hj; lia|].
+  destruct c as [|z c]; [cbn in Hl; lia|].
+  destruct j as [|j]; cbn [upd nth]; rewrite !mix_cost_cons.
+  - ring.
+  - rewrite IH by (cbn in Hj, Hl; lia). ring.
+Qed.
+
+Lemma map_upd (g : Q -> Q) l j x : map g (upd l j x) = upd (map g l) j (g x).
+Proof. revert j. induction l as [|y t IH]; intros [|j]; cbn [upd map]; try reflexivity. rewrite IH. reflexivity. Qed.
+
+Lemma nth_map_Q (g : Q -> Q) l j : (j < length l)%nat -> nth j (map g l) 0 = g (nth j l 0).
+Proof. intro H. apply nth_map_default. exact H. Qed.
+
+Lemma ne_of_lt (w : list Q) j : (j < length w)%nat -> w <> [].
+Proof. intros H E. subst w. cbn in H. lia. Qed.
+
+Lemma div_sign a s : 0 < s ->
+  (0 < a / s <-> 0 < a) /\ (a / s == 0 <-> a == 0) /\ (a / s < 0 <-> a < 0).
+Proof.
+  intro Hs. assert (Hi : 0 < / s) by (apply Qinv_lt_0_compat; exact Hs).
+  assert (E : a == (a / s) * s) by (field; lra).
+  unfold Qdiv in *. set (i := / s) in *. clearbody i.
+  repeat split; intro H; nra.
+Qed.
+
+Lemma wavg_diff_alg M S d cj : 0 < S -> 0 < S + d ->
+  (M + d * cj) / (S + d) - M / S == d * (cj - M / S) / (S + d).
+Proof. intros H1 H2. field. split; lra. Qed.
+
+(* ================================================================ 1. finite-difference form of the softmax gradient *)
+(* general form: element j replaced by any x (used with x = g (alpha_j + h)) *)
+Lemma wavg_upd w c j x : length w = length c -> (j < length w)%nat -> Forall (fun x => 0 < x) w ->
+  nth j w 0 < x ->
+  wavg (upd w j x) c - wavg w c == (x - nth j w 0) * (nth j c 0 - wavg w c) / (qsum w + (x - nth j w 0)).
+Proof.
+  intros Hl Hj Hw Hx. pose proof (qsum_pos w (ne_of_lt w j Hj) Hw) as Hp.
+  unfold wavg. rewrite (mix_cost_upd w c j x Hj Hl), (qsum_upd w j x Hj).
+  apply wavg_diff_alg; lra.
+Qed.
+
+Theorem wavg_raise w c j d : length w = length c -> (j < length w)%nat -> Forall (fun x => 0 < x) w -> 0 < d ->
+  wavg (upd w j (nth j w 0 + d)) c - wavg w c == d * (nth j c 0 - wavg w c) / (qsum w + d).
+Proof.
+  intros Hl Hj Hw Hd. rewrite (wavg_upd w c j (nth j w 0 + d) Hl Hj Hw) by lra.
+  assert (E : nth j w 0 + d - nth j w 0 == d) by ring. rewrite E. reflexivity.
+Qed.
+
+(* ================================================================ 2. direction of the change *)
+Lemma wavg_upd_dir w c j x : length w = length c -> (j < length w)%nat -> Forall (fun x => 0 < x) w ->
+  nth j w 0 < x ->
+  (wavg w c < wavg (upd w j x) c <-> wavg w c < nth j c 0) /\
+  (wavg (upd w j x) c == wavg w c <-> nth j c 0 == wavg w c) /\
+  (wavg (upd w j x) c < wavg w c <-> nth j c 0 < wavg w c).
+Proof.
+  intros Hl Hj Hw Hx. pose proof (qsum_pos w (ne_of_lt w j Hj) Hw) as Hp.
+  pose proof (wavg_upd w c j x Hl Hj Hw Hx) as E.
+  set (d := x - nth j w 0) in *. assert (Hd : 0 < d) by (unfold d; lra).
+  destruct (div_sign (d * (nth j c 0 - wavg w c)) (qsum w + d) ltac:(lra)) as [P [Z N]].
+  rewrite <- E in P, Z, N. clear E.
+  set (A := wavg (upd w j x) c) in *. set (B := wavg w c) in *. set (C := nth j c 0) in *.
+  clearbody A B C d. clear Hx Hl Hj Hw.
+  split; [|split]; split; intro H.
+  - assert (H' : 0 < A - B) by lra. apply P in H'. nra.
+  - assert (H' : 0 < d * (C - B)) by nra. apply P in H'. lra.
+  - assert (H' : A - B == 0) by lra. apply Z in H'. nra.
+  - assert (H' : d * (C - B) == 0) by nra. apply Z in H'. lra.
+  - assert (H' : A - B < 0) by lra. apply N in H'. nra.
+  - assert (H' : d * (C - B) < 0) by nra. apply N in H'. lra.
+Qed.
+
+Theorem wavg_raise_dir w c j d : length w = length c -> (j < length w)%nat -> Forall (fun x => 0 < x) w -> 0 < d ->
+  (wavg w c < wavg (upd w j (nth j w 0 + d)) c <-> wavg w c < nth j c 0) /\
+  (wavg (upd w j (nth j w 0 + d)) c == wavg w c <-> nth j c 0 == wavg w c) /\
+  (wavg (upd w j (nth j w 0 + d)) c < wavg w c <-> nth j c 0 < wavg w c).
+Proof. intros Hl Hj Hw Hd. apply wavg_upd_dir; try assumption. lra. Qed.
+
+Corollary wavg_raise_lt w c j d : length w = length c -> (j < length w)%nat -> Forall (fun x => 0 < x) w -> 0 < d ->
+  (wavg w c < wavg (upd w j (nth j w 0 + d)) c <-> wavg w c < nth j c 0).
+Proof. intros Hl Hj Hw Hd. apply (wavg_raise_dir w c j d Hl Hj Hw Hd). Qed.
+Corollary wavg_raise_gt w c j d : length w = length c -> (j < length w)%nat -> Forall (fun x => 0 < x) w -> 0 < d ->
+  (wavg (upd w j (nth j w 0 + d)) c < wavg w c <-> nth j c 0 < wavg w c).
+Proof. intros Hl Hj Hw Hd. apply (wavg_raise_dir w c j d Hl Hj Hw Hd). Qed.
+Corollary wavg_raise_eq w c j d : length w = length c -> (j < length w)%nat -> Forall (fun x => 0 < x) w -> 0 < d ->
+  (wavg (upd w j (nth j w 0 + d)) c == wavg w c <-> nth j c 0 == wavg w c).
+Proof. intros Hl Hj Hw Hd. apply (wavg_raise_dir w c j d Hl Hj Hw Hd). Qed.
+
+(* ================================================================ 4. the derivative *)
+Theorem d_sm_cost_sign w c j gp : Forall (fun x => 0 < x) w -> w <> [] -> 0 < gp ->
+  (0 < d_sm_cost w c j gp <-> wavg w c < nth j c 0) /\
+  (d_sm_cost w c j gp == 0 <-> nth j c 0 == wavg w c) /\
+  (d_sm_cost w c j gp < 0 <-> nth j c 0 < wavg w c).
+Proof.
+  intros Hw Hne Hg. pose proof (qsum_pos w Hne Hw) as Hp. unfold d_sm_cost.
+  destruct (div_sign (gp * (nth j c 0 - wavg w c)) (qsum w) Hp) as [P [Z N]].
+  set (B := wavg w c) in *. set (C := nth j c 0) in *. clearbody B C.
+  split; [|split]; split; intro H.
+  - apply P in H. nra.
+  - apply P. nra.
+  - apply Z in H. nra.
+  - apply Z. nra.
+  - apply N in H. nra.
+  - apply N. nra.
+Qed.
+
+Lemma dv_dsum_seedw w j gp : dv (dsum (seedw w j gp)) = qsum w.
+Proof.
+  rewrite dv_dsum. f_equal. revert j. induction w as [|x t IH]; intros [|j]; cbn [seedw map dv dconst]; try reflexivity.
+  - f_equal. apply dv_map_dconst.
+  - f_equal. apply IH.
+Qed.
+
+Lemma dd_map_dconst l : qsum (map dd (map dconst l)) = 0.
+Proof. induction l as [|x t IH]; [reflexivity|]. cbn [map dd dconst]. rewrite qsum_cons, IH. reflexivity. Qed.
+
+Lemma dd_dsum_seedw w j gp : (j < length w)%nat -> dd (dsum (seedw w j gp)) == gp.
+Proof.
+  rewrite dd_dsum. revert j. induction w as [|x t IH]; intros j Hj; [cbn in Hj; lia|].
+  destruct j as [|j]; cbn [seedw map dd dconst]; rewrite qsum_cons.
+  - rewrite dd_map_dconst. ring.
+  - rewrite IH by (cbn in Hj; lia). ring.
+Qed.
+
+Definition dnum (w : list dual) (c : list Q) : dual :=
+  dsum (map (fun p => dmul (fst p) (dconst (snd p))) (combine w c)).
+
+Lemma dv_dnum_const t c : dv (dnum (map dconst t) c) = mix_cost t c.
+Proof.
+  revert c. induction t as [|x t IH]; intros c; [reflexivity|].
+  destruct c as [|y c]; [reflexivity|].
+  unfold dnum in *. cbn [map combine]. rewrite dsum_cons. cbn [dv dadd dmul dconst fst snd].
+  rewrite IH, mix_cost_cons. reflexivity.
+Qed.
+
+Lemma dd_dnum_const t c : dd (dnum (map dconst t) c) == 0.
+Proof.
+  revert c. induction t as [|x t IH]; intros c; [reflexivity|].
+  destruct c as [|y c]; [reflexivity|].
+  unfold dnum in *. cbn [map combine]. rewrite dsum_cons. cbn [dd dv dadd dmul dconst fst snd].
+  rewrite IH. ring.
+Qed.
+
+Lemma dv_dnum_seedw w c j gp : dv (dnum (seedw w j gp) c) = mix_cost w c.
+Proof.
+  revert c j. induction w as [|x t IH]; intros c j; [destruct j; reflexivity|].
+  destruct c as [|y c]; [destruct j; reflexivity|].
+  destruct j as [|j]; cbn [seedw]; unfold dnum in *; cbn [map combine]; rewrite dsum_cons;
+    cbn [dv dadd dmul dconst fst snd]; rewrite mix_cost_cons; f_equal.
+  - apply dv_dnum_const.
+  - apply IH.
+Qed.
+
+Lemma dd_dnum_seedw w c j gp : length w = length c -> (j < length w)%nat ->
+  dd (dnum (seedw w j gp) c) == gp * nth j c 0.
+Proof.
+  revert c j. induction w as [|x t IH]; intros c j Hl Hj; [cbn in Hj; lia|].
+  destruct c as [|y c]; [cbn in Hl; lia|].
+  destruct j as [|j]; cbn [seedw nth]; unfold dnum in *; cbn [map combine]; rewrite dsum_cons;
+    cbn [dd dv dadd dmul dconst fst snd].
+  - rewrite (dd_dnum_const t c). ring.
+  - rewrite IH by (cbn in Hl, Hj; lia). ring.
+Qed.
+
+Theorem d_wavg_value w c j gp : dv (d_wavg (seedw w j gp) c) = wavg w c.
+Proof.
+  unfold d_wavg, dual_div. cbn [dv]. fold (dnum (seedw w j gp) c).
+  rewrite dv_dnum_seedw, dv_dsum_seedw. reflexivity.
+Qed.
+
+Theorem d_wavg_deriv w c j gp : length w = length c -> (j < length w)%nat -> Forall (fun x => 0 < x) w ->
+  dd (d_wavg (seedw w j gp) c) == d_sm_cost w c j gp.
+Proof.
+  intros Hl Hj Hw. pose proof (qsum_pos w (ne_of_lt w j Hj) Hw) as Hp.
+  unfold d_wavg, dual_div, d_sm_cost, wavg. cbn [dd]. fold (dnum (seedw w j gp) c).
+  rewrite dv_dnum_seedw, dv_dsum_seedw, (dd_dnum_seedw w c j gp Hl Hj), (dd_dsum_seedw w j gp Hj).
+  field. lra.
+Qed.
+
+(* the dual-number derivative has the sign of (c_j - current mixture) *)
+Corollary d_wavg_deriv_sign w c j gp : length w = length c -> (j < length w)%nat -> Forall (fun x => 0 < x) w -> 0 < gp ->
+  (0 < dd (d_wavg (seedw w j gp) c) <-> wavg w c < nth j c 0) /\
+  (dd (d_wavg (seedw w j gp) c) == 0 <-> nth j c 0 == wavg w c) /\
+  (dd (d_wavg (seedw w j gp) c) < 0 <-> nth j c 0 < wavg w c).
+Proof.
+  intros Hl Hj Hw Hg. rewrite (d_wavg_deriv w c j gp Hl Hj Hw).
+  apply d_sm_cost_sign; [exact Hw|exact (ne_of_lt w j Hj)|exact Hg].
+Qed.
+
+(* ================================================================ 5a. bit costs, strict mixtures *)
+Theorem bit_costs_pos precs size : 0 < size -> Forall (fun b => 0 < b) precs ->
+  Forall (fun x => 0 < x) (bit_costs precs size).
+Proof.
+  intros Hs H. unfold bit_costs. induction H as [|b t Hb _ IH]; cbn [map]; constructor; [|exact IH].
+  unfold bit_cost. nra.
+Qed.
+
+Lemma bit_costs_length precs size : length (bit_costs precs size) = length precs.
+Proof. apply map_length. Qed.
+
+Lemma bit_costs_nth precs size i : (i < length precs)%nat ->
+  nth i (bit_costs precs size) 0 = bit_cost (nth i precs 0) size.
+Proof. intro H. unfold bit_costs. apply (nth_map_default (fun b => bit_cost b size)). exact H. Qed.
+
+Theorem bit_costs_strict_order precs size i j : 0 < size -> nth i precs 0 < nth j precs 0 ->
+  (i < length precs)%nat -> (j < length precs)%nat ->
+  nth i (bit_costs precs size) 0 < nth j (bit_costs precs size) 0.
+Proof. intros Hs H Hi Hj. rewrite !bit_costs_nth by assumption. unfold bit_cost. nra. Qed.
+
+Lemma mix_cost_le_max w c m : length w = length c -> Forall (fun x => 0 < x) w ->
+  (forall k, (k < length c)%nat -> nth k c 0 <= m) -> mix_cost w c <= m * qsum w.
+Proof.
+  intros Hl Hw. revert c Hl. induction Hw as [|x w Hx _ IH]; intros c Hl Hc.
+  - rewrite mix_cost_nil_l, qsum_nil. lra.
+  - destruct c as [|y c]; [cbn in Hl; lia|]. rewrite mix_cost_cons, qsum_cons.
+    pose proof (Hc O ltac:(cbn; lia)) as H0. cbn [nth] in H0.
+    assert (H1 : mix_cost w c <= m * qsum w).
+    { apply IH; [cbn in Hl; lia|]. intros k Hk. apply (Hc (S k)). cbn. lia. }
+    nra.
+Qed.
+
+Lemma mix_cost_lt_max w c m : length w = length c -> Forall (fun x => 0 < x) w ->
+  (forall k, (k < length c)%nat -> nth k c 0 <= m) -> (exists k, (k < length c)%nat /\ nth k c 0 < m) ->
+  mix_cost w c < m * qsum w.
+Proof.
+  intros Hl Hw. revert c Hl. induction Hw as [|x w Hx Hw IH]; intros c Hl Hc [k [Hk Hlt]].
+  - destruct c; [cbn in Hk; lia|cbn in Hl; lia].
+  - destruct c as [|y c]; [cbn in Hl; lia|]. rewrite mix_cost_cons, qsum_cons.
+    pose proof (Hc O ltac:(cbn; lia)) as H0. cbn [nth] in H0.
+    assert (Hc' : forall k, (k < length c)%nat -> nth k c 0 <= m).
+    { intros k' Hk'. apply (Hc (S k')). cbn. lia. }
+    destruct k as [|k]; cbn [nth] in Hlt.
+    + pose proof (mix_cost_le_max w c m ltac:(cbn in Hl; lia) Hw Hc') as H1. nra.
+    + assert (H1 : mix_cost w c < m * qsum w).
+      { apply IH; [cbn in Hl; lia|exact Hc'|]. exists k. split; [cbn in Hk; lia|exact Hlt]. }
+      nra.
+Qed.
+
+Lemma mix_cost_ge_min w c m : length w = length c -> Forall (fun x => 0 < x) w ->
+  (forall k, (k < length c)%nat -> m <= nth k c 0) -> m * qsum w <= mix_cost w c.
+Proof.
+  intros Hl Hw. revert c Hl. induction Hw as [|x w Hx _ IH]; intros c Hl Hc.
+  - rewrite mix_cost_nil_l, qsum_nil. lra.
+  - destruct c as [|y c]; [cbn in Hl; lia|]. rewrite mix_cost_cons, qsum_cons.
+    pose proof (Hc O ltac:(cbn; lia)) as H0. cbn [nth] in H0.
+    assert (H1 : m * qsum w <= mix_cost w c).
+    { apply IH; [cbn in Hl; lia|]. intros k Hk. apply (Hc (S k)). cbn. lia. }
+    nra.
+Qed.
+
+Lemma mix_cost_gt_min w c m : length w = length c -> Forall (fun x => 0 < x) w ->
+  (forall k, (k < length c)%nat -> m <= nth k c 0) -> (exists k, (k < length c)%nat /\ m < nth k c 0) ->
+  m * qsum w < mix_cost w c.
+Proof.
+  intros Hl Hw. revert c Hl. induction Hw as [|x w Hx Hw IH]; intros c Hl Hc [k [Hk Hlt]].
+  - destruct c; [cbn in Hk; lia|cbn in Hl; lia].
+  - destruct c as [|y c]; [cbn in Hl; lia|]. rewrite mix_cost_cons, qsum_cons.
+    pose proof (Hc O ltac:(cbn; lia)) as H0. cbn [nth] in H0.
+    assert (Hc' : forall k, (k < length c)%nat -> m <= nth k c 0).
+    { intros k' Hk'. apply (Hc (S k')). cbn. lia. }
+    destruct k as [|k]; cbn [nth] in Hlt.
+    + pose proof (mix_cost_ge_min w c m ltac:(cbn in Hl; lia) Hw Hc') as H1. nra.
+    + assert (H1 : m * qsum w < mix_cost w c).
+      { apply IH; [cbn in Hl; lia|exact Hc'|]. exists k. split; [cbn in Hk; lia|exact Hlt]. }
+      nra.
+Qed.
+
+Lemma other_index (n j : nat) : (2 <= n)%nat -> exists k, k <> j /\ (k < n)%nat.
+Proof. intro H. destruct j as [|j]; [exists 1%nat|exists 0%nat]; lia. Qed.
+
+(* a mixture with positive weights over >= 2 costs with a strict maximum at j is strictly below that maximum *)
+Theorem wavg_lt_strict_max w c j : length w = length c -> (2 <= length c)%nat -> (j < length c)%nat ->
+  Forall (fun x => 0 < x) w -> (forall k, k <> j -> (k < length c)%nat -> nth k c 0 < nth j c 0) ->
+  wavg w c < nth j c 0.
+Proof.
+  intros Hl Hn Hj Hw Hmax. assert (Hne : w <> []) by (apply (ne_of_lt w j); lia).
+  pose proof (qsum_pos w Hne Hw) as Hp. unfold wavg. apply Qlt_shift_div_r; [exact Hp|].
+  apply mix_cost_lt_max; [exact Hl|exact Hw| |].
+  - intros k Hk. destruct (Nat.eq_dec k j) as [->|Hkj]; [lra|]. apply Qlt_le_weak. apply Hmax; assumption.
+  - destruct (other_index (length c) j Hn) as [k [Hkj Hk]]. exists k. split; [exact Hk|apply Hmax; assumption].
+Qed.
+
+Theorem wavg_gt_strict_min w c j : length w = length c -> (2 <= length c)%nat -> (j < length c)%nat ->
+  Forall (fun x => 0 < x) w -> (forall k, k <> j -> (k < length c)%nat -> nth j c 0 < nth k c 0) ->
+  nth j c 0 < wavg w c.
+Proof.
+  intros Hl Hn Hj Hw Hmin. assert (Hne : w <> []) by (apply (ne_of_lt w j); lia).
+  pose proof (qsum_pos w Hne Hw) as Hp. unfold wavg. apply Qlt_shift_div_l; [exact Hp|].
+  apply mix_cost_gt_min; [exact Hl|exact Hw| |].
+  - intros k Hk. destruct (Nat.eq_dec k j) as [->|Hkj]; [lra|]. apply Qlt_le_weak. apply Hmin; assumption.
+  - destruct (other_index (length c) j Hn) as [k [Hkj Hk]]. exists k. split; [exact Hk|apply Hmin; assumption].
+Qed.
+
+Lemma mix_cost_pos w c : w <> [] -> length w = length c -> Forall (fun x => 0 < x) w -> Forall (fun x => 0 < x) c ->
+  0 < mix_cost w c.
+Proof.
+  intros Hne Hl Hw Hc. destruct Hw as [|x w Hx Hw]; [congruence|].
+  destruct Hc as [|y c Hy Hc]; [cbn in Hl; lia|]. rewrite mix_cost_cons.
+  assert (0 <= mix_cost w c); [|nra].
+  apply mix_cost_nonneg; (eapply Forall_impl; [|eassumption]); intros a Ha; cbv beta in Ha; lra.
+Qed.
+
+(* strict version of the affine derivative of the MPS layer cost (mps_layer_cost_affine_w): the slope w.r.t. the
+   weight-precision coefficient thw_j is > 0 when every per-input-precision cost of precision j is > 0 *)
+Theorem mps_affine_deriv_pos thin c j : thin <> [] -> length thin = length c -> Forall (fun x => 0 < x) thin ->
+  Forall (fun row => 0 < nth j row 0) c -> 0 < mix_cost thin (map (fun row => nth j row 0) c).
+Proof.
+  intros Hne Hl Hw Hc. apply mix_cost_pos; [exact Hne|rewrite map_length; exact Hl|exact Hw|].
+  clear Hl. induction Hc as [|r c Hr _ IH]; cbn [map]; constructor; assumption.
+Qed.
+
+(* ================================================================ 3. softmax coefficients *)
+Section Softmax.
+  Variable g : Q -> Q.
+  Hypothesis g_pos : forall x, 0 < g x.
+  Hypothesis g_incr : forall x y, x < y -> g x < g y.
+
+  Lemma map_g_pos alpha : Forall (fun x => 0 < x) (map g alpha).
+  Proof. induction alpha as [|a t IH]; cbn [map]; constructor; [apply g_pos|exact IH]. Qed.
+
+  Lemma sm_cost_upd alpha c j h : (j < length alpha)%nat ->
+    sm_cost g (upd alpha j (nth j alpha 0 + h)) c = wavg (upd (map g alpha) j (g (nth j alpha 0 + h))) c.
+  Proof. intros _. unfold sm_cost. rewrite map_upd. reflexivity. Qed.
+
+  Theorem sm_cost_raise_dir alpha c j h : length alpha = length c -> (j < length alpha)%nat -> 0 < h ->
+    (sm_cost g alpha c < sm_cost g (upd alpha j (nth j alpha 0 + h)) c <-> sm_cost g alpha c < nth j c 0) /\
+    (sm_cost g (upd alpha j (nth j alpha 0 + h)) c == sm_cost g alpha c <-> nth j c 0 == sm_cost g alpha c) /\
+    (sm_cost g (upd alpha j (nth j alpha 0 + h)) c < sm_cost g alpha c <-> nth j c 0 < sm_cost g alpha c).
+  Proof.
+    intros Hl Hj Hh. rewrite (sm_cost_upd alpha c j h Hj). unfold sm_cost.
+    apply wavg_upd_dir.
+    - rewrite map_length. exact Hl.
+    - rewrite map_length. exact Hj.
+    - apply map_g_pos.
+    - rewrite (nth_map_Q g alpha j Hj). apply g_incr. lra.
+  Qed.
+
+  Theorem sm_cost_raise alpha c j h : length alpha = length c -> (j < length alpha)%nat -> 0 < h ->
+    (sm_cost g alpha c < sm_cost g (upd alpha j (nth j alpha 0 + h)) c <-> sm_cost g alpha c < nth j c 0) /\
+    (sm_cost g (upd alpha j (nth j alpha 0 + h)) c < sm_cost g alpha c <-> nth j c 0 < sm_cost g alpha c).
+  Proof.
+    intros Hl Hj Hh. destruct (sm_cost_raise_dir alpha c j h Hl Hj Hh) as [A [_ B]]. split; assumption.
+  Qed.
+
+  Theorem sm_cost_between alpha c lo hi : length alpha = length c -> alpha <> [] ->
+    Forall (fun x => lo <= x <= hi) c -> lo <= sm_cost g alpha c <= hi.
+  Proof.
+    intros Hl Hne Hc. unfold sm_cost. apply odimo_reduction_between.
+    - rewrite map_length. exact Hl.
+    - destruct alpha; [congruence|discriminate].
+    - apply map_g_pos.
+    - exact Hc.
+  Qed.
+
+  (* exact size of the step *)
+  Theorem sm_cost_raise_exact alpha c j h : length alpha = length c -> (j < length alpha)%nat -> 0 < h ->
+    sm_cost g (upd alpha j (nth j alpha 0 + h)) c - sm_cost g alpha c ==
+    (g (nth j alpha 0 + h) - g (nth j alpha 0)) * (nth j c 0 - sm_cost g alpha c) /
+    (qsum (map g alpha) + (g (nth j alpha 0 + h) - g (nth j alpha 0))).
+  Proof.
+    intros Hl Hj Hh. rewrite (sm_cost_upd alpha c j h Hj). unfold sm_cost.
+    rewrite <- (nth_map_Q g alpha j Hj). apply wavg_upd.
+    - rewrite map_length. exact Hl.
+    - rewrite map_length. exact Hj.
+    - apply map_g_pos.
+    - rewrite (nth_map_Q g alpha j Hj). apply g_incr. lra.
+  Qed.
+
+  (* ---------------------------------------------------------------- 5b. params_bit / ops_bit *)
+  Theorem sm_bit_cost_max_raises alpha precs size j h gp :
+    length alpha = length precs -> (2 <= length precs)%nat -> (j < length precs)%nat -> 0 < size ->
+    (forall k, k <> j -> (k < length precs)%nat -> nth k precs 0 < nth j precs 0) ->
+    0 < h -> 0 < gp ->
+    sm_cost g alpha (bit_costs precs size) < sm_cost g (upd alpha j (nth j alpha 0 + h)) (bit_costs precs size) /\
+    0 < d_sm_cost (map g alpha) (bit_costs precs size) j gp.
+  Proof.
+    intros Hl Hn Hj Hs Hmax Hh Hg.
+    assert (Hlt : sm_cost g alpha (bit_costs precs size) < nth j (bit_costs precs size) 0).
+    { unfold sm_cost. apply wavg_lt_strict_max.
+      - rewrite map_length, bit_costs_length. exact Hl.
+      - rewrite bit_costs_length. exact Hn.
+      - rewrite bit_costs_length. exact Hj.
+      - apply map_g_pos.
+      - intros k Hkj Hk. rewrite bit_costs_length in Hk. apply bit_costs_strict_order; try assumption.
+        apply Hmax; assumption. }
+    split.
+    - apply (sm_cost_raise alpha (bit_costs precs size) j h); try assumption.
+      + rewrite bit_costs_length. exact Hl.
+      + lia.
+    - apply d_sm_cost_sign; try assumption.
+      + apply map_g_pos.
+      + destruct alpha; [cbn in Hl; lia|discriminate].
+  Qed.
+
+  Theorem sm_bit_cost_min_lowers alpha precs size j h gp :
+    length alpha = length precs -> (2 <= length precs)%nat -> (j < length precs)%nat -> 0 < size ->
+    (forall k, k <> j -> (k < length precs)%nat -> nth j precs 0 < nth k precs 0) ->
+    0 < h -> 0 < gp ->
+    sm_cost g (upd alpha j (nth j alpha 0 + h)) (bit_costs precs size) < sm_cost g alpha (bit_costs precs size) /\
+    d_sm_cost (map g alpha) (bit_costs precs size) j gp < 0.
+  Proof.
+    intros Hl Hn Hj Hs Hmin Hh Hg.
+    assert (Hlt : nth j (bit_costs precs size) 0 < sm_cost g alpha (bit_costs precs size)).
+    { unfold sm_cost. apply wavg_gt_strict_min.
+      - rewrite map_length, bit_costs_length. exact Hl.
+      - rewrite bit_costs_length. exact Hn.
+      - rewrite bit_costs_length. exact Hj.
+      - apply map_g_pos.
+      - intros k Hkj Hk. rewrite bit_costs_length in Hk. apply bit_costs_strict_order; try assumption.
+        apply Hmin; assumption. }
+    split.
+    - apply (sm_cost_raise alpha (bit_costs precs size) j h); try assumption.
+      + rewrite bit_costs_length. exact Hl.
+      + lia.
+    - apply d_sm_cost_sign; try assumption.
+      + apply map_g_pos.
+      + destruct alpha; [cbn in Hl; lia|discriminate].
+  Qed.
+
+  (* the dual-number gradient of the softmax-mixed bit cost is strictly positive at the largest precision and
+     strictly negative at the smallest one: it is never identically zero when there are >= 2 distinct precisions *)
+  Corollary sm_bit_cost_dual_grad alpha precs size j gp :
+    length alpha = length precs -> (2 <= length precs)%nat -> (j < length precs)%nat -> 0 < size -> 0 < gp ->
+    ((forall k, k <> j -> (k < length precs)%nat -> nth k precs 0 < nth j precs 0) ->
+     0 < dd (d_wavg (seedw (map g alpha) j gp) (bit_costs precs size))) /\
+    ((forall k, k <> j -> (k < length precs)%nat -> nth j precs 0 < nth k precs 0) ->
+     dd (d_wavg (seedw (map g alpha) j gp) (bit_costs precs size)) < 0).
+  Proof.
+    intros Hl Hn Hj Hs Hg.
+    assert (E : dd (d_wavg (seedw (map g alpha) j gp) (bit_costs precs size)) ==
+                d_sm_cost (map g alpha) (bit_costs precs size) j gp).
+    { apply d_wavg_deriv.
+      - rewrite map_length, bit_costs_length. exact Hl.
+      - rewrite map_length. lia.
+      - apply map_g_pos. }
+    split; intro H; rewrite E.
+    - apply (sm_bit_cost_max_raises alpha precs size j 1 gp); try assumption. lra.
+    - apply (sm_bit_cost_min_lowers alpha precs size j 1 gp); try assumption. lra.
+  Qed.
+End Softmax.
